@@ -212,9 +212,25 @@ def build(repo=None):
         ("_config.py", "update", "self.jaxtyping_disable"): "documented switch setter",
         ("_config.py", "update", "self.jaxtyping_remove_typechecker_stack"): "documented switch setter",
     }
+    # the one-time traceback registration may sit in jaxtyped itself or in a private module-level helper that jaxtyped calls: the flag is only ever switched OFF
+    dmod = get("jaxtyping/_decorator.py")
+    jt_fn = dmod.func("jaxtyped")
+    jt_callees = {c.func.id for c in ast.walk(jt_fn) if isinstance(c, ast.Call) and isinstance(c.func, ast.Name)}
+    top_fns = {b.name: b for b in dmod.tree.body if isinstance(b, ast.FunctionDef)}
+    flag_writes_off = all(isinstance(a.value, ast.Constant) and a.value.value is False for f_ in ast.walk(dmod.tree) if isinstance(f_, ast.FunctionDef)
+                          for a in ast.walk(f_) if isinstance(a, ast.Assign) and any(isinstance(t, ast.Name) and t.id == "_tb_flag" for t in a.targets))
+
+    def is_documented(item):
+        if item in documented:
+            return item != ("_decorator.py", "jaxtyped", "_tb_flag") or flag_writes_off
+        return item[0] == "_decorator.py" and item[2] == "_tb_flag" and item[1] in top_fns and item[1] in jt_callees and flag_writes_off
+
     for item in sorted(set(inventory)):
-        ob(f"C12:process-global-write-is-a-documented-setter[{item[0]}:{item[1]}:{item[2]}]", item in documented, ["C12"], why=documented.get(item, "UNDOCUMENTED process-global write"))
-    ob("C12:inventory-found-the-known-setters", {k for k in documented} <= set(inventory) | {("_decorator.py", "jaxtyped", "fn.__init__")}, ["C12"], missing=sorted(set(documented) - set(inventory)))
+        ob(f"C12:process-global-write-is-a-documented-setter[{item[0]}:{item[1]}:{item[2]}]", is_documented(item), ["C12"], why=documented.get(item, "one-time registration of the JAX traceback exclusion (helper of jaxtyped)" if is_documented(item) else "UNDOCUMENTED process-global write"))
+    found = set(inventory) | {("_decorator.py", "jaxtyped", "fn.__init__")}
+    if any(i_[0] == "_decorator.py" and i_[2] == "_tb_flag" and is_documented(i_) for i_ in inventory):
+        found.add(("_decorator.py", "jaxtyped", "_tb_flag"))
+    ob("C12:inventory-found-the-known-setters", {k for k in documented} <= found, ["C12"], missing=sorted(set(documented) - found))
     # memoising decorators = process-global caches: only the documented ones (their keys determine their values)
     caches = []
     for rel in ("jaxtyping/_array_types.py", "jaxtyping/_pytree_type.py", "jaxtyping/_storage.py", "jaxtyping/_decorator.py", "jaxtyping/__init__.py"):
